@@ -110,7 +110,7 @@ pub fn strata(quick: bool) -> Vec<Stratum> {
         repeat: false,
         do_: false,
         do_ranges: vec![],
-        defs: vec!["f", "g"],
+        defs: vec!["f", "v"],
         locals: vec!["x"],
         vars: vec!["v"],
         index_words: false,
@@ -211,6 +211,18 @@ pub fn unset_local_class() -> &'static str {
     })
 }
 
+/// the error class of `! name` where name means a word (measured on the tree under test)
+pub fn store_to_word_class() -> &'static str {
+    static C: std::sync::OnceLock<String> = std::sync::OnceLock::new();
+    C.get_or_init(|| {
+        let mut xs = boot();
+        match guarded(|| xs.eval(": store-probe 1 ; 0 ! store-probe")) {
+            Ok(Err(e)) => classify(&e),
+            _ => "<none>".to_string(),
+        }
+    })
+}
+
 pub struct Outcome {
     pub class: String,
     pub stack: Vec<String>,
@@ -254,6 +266,16 @@ pub fn check_program(base: &Xstate, prog: &[N]) -> CaseResult {
             return CaseResult { agree: true, skipped: Some("not-in-language"), mclass: String::new(), iclass: String::new(), nontrivial: false, steps: 0, detail: String::new() }
         }
     };
+    if rp.rejected {
+        // refused while it is compiled: the error is the compiler's, nothing of the source has run
+        let io = match run_impl(base, &src, 0) {
+            Ok(o) => o,
+            Err(pmsg) => return CaseResult { agree: false, skipped: None, mclass: "Rejected".into(), iclass: "PANIC".into(), nontrivial: false, steps: 0, detail: format!("panic: {}", pmsg) },
+        };
+        let agree = io.class == store_to_word_class() && io.stack.is_empty() && io.out.is_empty();
+        let detail = if agree { String::new() } else { format!("model: the source stores to a name that means a word at that point, so it is refused by the compiler ({}) and nothing runs | impl: {} stack={:?} out={:?}", store_to_word_class(), io.class, io.stack, io.out) };
+        return CaseResult { agree, skipped: None, mclass: "Rejected".into(), iclass: io.class, nontrivial: false, steps: 0, detail };
+    }
     // a local read in a call that never executed its declaration has no documented value; what the
     // property needs is that it never shows another call's data. Three consistent readings are
     // accepted: the per-call slot rule of the implementation (nil below the highest slot the call
